@@ -43,7 +43,7 @@ CHECKS = {
   note="Small prime fields (67/257; 13 for the adversarial search of untaken branches). Known finding: division by a zero-valued secret raises under a false guard.",
   design="5/C07"),
  "C08": dict(
-  technique="TLC model checking of Guard.tla (mechanism + contract: NestConj, IgnConj, OneBound, TopLevelClean, RestoreOnEnd) + replay of every TLC-generated history into the code + trace validation against Guard.tla (TraceGuard.tla)",
+  technique="TLC model checking of Guard.tla (mechanism + contract: NestConj, IgnConj, OneBound, TopLevelClean, RestoreOnEnd), inductive-invariant check for histories of any length (GuardInd.tla) + replay of every TLC-generated history into the code + trace validation against Guard.tla (TraceGuard.tla)",
   text="Model checking with conformance: Guard.tla models add_guard/restore_guard/guarded and exception unwinding through guarded regions and user try blocks; TLC checks the contract on it exhaustively, prints every complete history (enter 0/1, leave, raise at any point, rejected entry, try/catch, ignore switches; length<=6, depth<=3 quick), each history is rendered as a program and run on the real code, and the recorded guard triple (values, flags and object identities) is validated step by step against the spec's actions; restore-on-every-exit-path and conjunction nesting are checked on what the code reported. Event sequences of Branching.tla that end in a structural error of the block API are replayed inside try blocks and judged by the same invariants.",
   note="Histories bounded by length/depth (8/4 thorough + simulation to length 14); mismatch in parts of the triple the property does not mention is reported as MODEL-DRIFT, not a violation.",
   design="5/C08"),
